@@ -73,7 +73,7 @@ def drive_(a, rng):
     ro = rng.random() < 0.6
     ru = rng.random() < 0.6
     sub = ts.dump_tables()
-    sub.subset(nodes, record_provenance=False, reorder_populations=ro, remove_unreferenced=ru)
+    sub.subset(gen.arg_form(rng, nodes), record_provenance=False, reorder_populations=ro, remove_unreferenced=ru)
     case.update(nodes=nodes, ro=1 if ro else 0, ru=1 if ru else 0, sub=A(sub))
     # ---- union of two parts sharing the nodes at least as old as a cutoff
     times = list(ts.nodes_time)
@@ -101,7 +101,7 @@ def drive_(a, rng):
     tu = ta.copy()
     try:
         if check:
-            tu.union(tb, mapping, check_shared_equality=True, add_populations=addpop, record_provenance=False)
+            tu.union(tb, gen.arg_form(rng, mapping), check_shared_equality=True, add_populations=addpop, record_provenance=False)
             other = tb
         else:
             tu.union(tb2, mapping, check_shared_equality=False, add_populations=addpop, record_provenance=False)
